@@ -19,15 +19,17 @@ for d in sorted(glob.glob(os.path.join(ROOT, "seeded", "*", "meta.json"))):
 idx = json.load(open(os.path.join(ROOT, "seeded", "INDEX.json")))
 kept = len(rows)
 own = sum(1 for r in rows if r[0][:3] in r[3])
-r2 = [r for r in rows if r[5] in (2, 3, 4)]
+r2 = [r for r in rows if r[5] in (2, 3, 4, 5)]
 missed_first = sum(1 for r in r2 if r[4].startswith(("first run: missed", "not a violation", "own check")))
 out = ["### 12.1 Seeded changes actually tried (%d kept; written by sub-agents that saw only the property text and a scratch worktree)" % kept, "",
        "Each change compiles, passes the repository's 264 tests (cold caches) and comes with a demonstration that fails with it and passes",
        "without it (`seeded/<id>/`: patch.diff, demo.py, meta.json; `tools/confirm_mut.sh`, `tools/mutrun.sh`).  All %d are reported by at least" % kept,
        "one check; %d by the check of the property they were written against.  The last column records what had to be strengthened: in the" % own,
-       "second, third and fourth round %d of %d changes slipped through their own check at first -- almost every time because the deterministic corpus" % (missed_first, len(r2)),
+       "second to fifth round %d of %d changes slipped through their own check at first -- almost every time because the deterministic corpus" % (missed_first, len(r2)),
        "lacked the grammar shape, option combination or input class, not because a clause was missing or wrong (exceptions: the `strat` event of",
-       "`LRTrace`, the exact big-integer arithmetic of `BigForest`, the constant falsy actions of `Actions`, the hint text in the lifecycle reply).",
+       "`LRTrace`, the exact big-integer arithmetic of `BigForest`, the constant falsy actions of `Actions`, the hint text in the lifecycle reply;",
+       "in round 5 two misses were the machinery's own: a known finding's output signature absorbed C08-i, and the crash of C12 was injected by",
+       "replacing the function under test).",
        "The families of §0.2a are the result.", "",
        "| id | file | change | reported by | note |", "|---|---|---|---|---|"]
 for r in rows:
